@@ -31,7 +31,7 @@ filter unit
 * `filter_exact`, `filter_total_is_sum`, `filter_monotone`
 whole process
 * `assemble_is_concatenation`, `assemble_parses`, `sources_wf`, `assemble_unique_iff`, `assemble_same_type_twice`,
-  `registerAll_sorted_perm`; in `Props/UnitMetricsTable.lean` (extracted table): `table_consistent`,
+  `registerAll_sorted_perm`, `register_stable`; in `Props/UnitMetricsTable.lean` (extracted table): `table_consistent`,
   `assemble_consistent_meta`, `model_constants_in_table`, `model_shapes_in_source`, `tokio_fields`, `tokio_calls_wf`
 -/
 namespace Rotonda.UnitMetrics
@@ -1048,6 +1048,49 @@ theorem register_perm (s : Source) (l : List Source) : (register s l).Perm (s ::
     split
     · exact ((List.Perm.cons y ih).trans (List.Perm.swap s y l))
     · exact List.Perm.refl _
+
+theorem strLe_refl (a : Str) : strLe a a = true := by
+  induction a with
+  | nil => rfl
+  | cons x a ih => simp [strLe, ih]
+
+/-- **`register` is stable**: among the sources of one component name the registration order is kept (the new source
+    goes behind the ones already registered under its name) — the BMP unit registers three sources under one name. -/
+theorem register_stable (s : Source) (l : List Source) (h : SortedByName l) (n : Str) :
+    (register s l).filter (fun y => y.name == n) =
+      l.filter (fun y => y.name == n) ++ (if s.name == n then [s] else []) := by
+  induction l with
+  | nil => simp [register, List.filter_cons]
+  | cons x xs ih =>
+    have hx := List.pairwise_cons.mp h
+    simp only [register]
+    split
+    · simp only [List.filter_cons, ih hx.2]
+      split <;> simp
+    · rename_i hle
+      by_cases hs : s.name == n
+      · have hsn : s.name = n := by simpa using hs
+        have none : ∀ y ∈ x :: xs, (y.name == n) = false := by
+          intro y hy
+          rcases List.mem_cons.mp hy with rfl | hy
+          · by_cases e : y.name = n
+            · exact absurd (by rw [e, ← hsn]; exact strLe_refl _ : strLe y.name s.name = true) (by rw [e, ← hsn] at hle; exact fun _ => hle (strLe_refl _))
+            · simpa using e
+          · by_cases e : y.name = n
+            · have := hx.1 y hy
+              rw [e, ← hsn] at this
+              exact absurd this hle
+            · simpa using e
+        have fe : (x :: xs).filter (fun y => y.name == n) = [] := by
+          rw [List.filter_eq_nil_iff]
+          intro y hy
+          simp [none y hy]
+        rw [List.filter_cons, hs, fe]
+        simp
+      · simp [List.filter_cons, hs]
+
+example : ((registerAll [mqttSource ['b'] MqttRec.zero, filterSource ['a'] GateRec.zero ['0'] FilterRec.zero,
+    mqttSource ['a'] ⟨true, 0, 0, 0, 0, [(['t'], 1)]⟩]).map (fun s => (s.calls s.name).length)) = [5, 6, 5] := by decide
 
 theorem foldl_register (ss acc : List Source) (h : SortedByName acc) :
     SortedByName (ss.foldl (fun a s => register s a) acc) ∧ (ss.foldl (fun a s => register s a) acc).Perm (acc ++ ss) := by
